@@ -180,6 +180,10 @@ func runRoot(g *Gen, fn *ssa.Function, c *Contract, u *Unit) {
 	env.oldState = entry
 	u.env = env
 	for _, r := range c.Requires {
+		if strings.Contains(r.Src, "madeHere(") {
+			// "the caller hands over an object of its own": an obligation of the callers, nothing the body may assume
+			continue
+		}
 		g.assumeRaw(env.boolExpr(r.Expr))
 	}
 	for _, r := range c.Assumes {
